@@ -100,15 +100,28 @@ def gen_case(r, family="A", force_mode=None):
         x0 = F(round((L[0] / 2 - gap / 2) * 16), 16)
         parts[a] = dict(r=[x0, y, z], v=[F(r.choice([1, 2, 3]), 8), F(0), F(0)])
         parts[b] = dict(r=[x0 + gap, y, z], v=[-F(r.choice([3, 4, 6]), 8), F(0), F(0)])
+    two = r.random() < 0.5
+    spec = ["A", "B"] if two else ["A"]
+    for k, p in enumerate(parts):
+        p["species"] = spec[k % len(spec)] if mode != "headon" or k > 1 else None
+    if mode == "headon" and npart >= 2:
+        # the two approaching particles are of different species in half of the two-species cases
+        parts[0]["species"] = "A"
+        parts[1]["species"] = "B" if two else "A"
+    for p in parts:
+        if p["species"] is None:
+            p["species"] = "A"
+    if two and not any(p["species"] == "B" for p in parts):
+        parts[-1]["species"] = "B"
     force = "0*[rij]" if family == "A" else r.choice(["[rij]", "(1/2)*[rij]", "[rij]+(1/4)*[vij]".replace("[vij]", "([vi]-[vj])")])
     sc = {"box": [symlib.rat(x) for x in L], "periodic": periodic,
           "controller": {"dt": symlib.rat(dt), "timesteps": nsteps},
-          "integrators": [["IntegratorVelocityVerletDisp", {"species": "A", "lambda": "1/2", "mass": "1", "displacement": "displacement", "symbol": "ds"}]],
-          "modules": [["FPairVels", {"species1": "A", "species2": "A", "cutoff": symlib.rat(rc), "pairFactor": force}]],
+          "integrators": [["IntegratorVelocityVerletDisp", {"species": sp, "lambda": "1/2", "mass": "1", "displacement": "displacement", "symbol": "ds"}] for sp in spec],
+          "modules": [["FPairVels", {"species1": sa, "species2": sb, "cutoff": symlib.rat(rc), "pairFactor": force}] for sa in spec for sb in spec if sa <= sb],
           "pair_creator": ["VerletCreator", {"skinSize": symlib.rat(skin), "every": every, "displacement": "displacement"}],
-          "particles": [{"species": "A", "r": [symlib.rat(x) for x in p["r"]], "v": [symlib.rat(x) for x in p["v"]]} for p in parts],
-          "species_order": ["A"]}
-    meta = dict(rc=rc, skin=skin, L=L, periodic=periodic, every=every, dt=dt, nsteps=nsteps, mode=mode, family=family)
+          "particles": [{"species": p["species"], "r": [symlib.rat(x) for x in p["r"]], "v": [symlib.rat(x) for x in p["v"]]} for p in parts],
+          "species_order": spec}
+    meta = dict(rc=rc, skin=skin, L=L, periodic=periodic, every=every, dt=dt, nsteps=nsteps, mode=mode, family=family, species=len(spec))
     return sc, meta
 
 
@@ -148,18 +161,19 @@ def oracle_step(step, meta):
         return errs
     rc = meta["rc"]
     L, per = meta["L"], meta["periodic"]
-    ps = {p["slot"]: p for p in step["particles"] if not p["frozen"]}
+    ps = {(p["colour"], p["slot"]): p for p in step["particles"] if not p["frozen"]}
     listed = {}
     for pr in step["pairs"]:
-        key = (min(pr["s1"], pr["s2"]), max(pr["s1"], pr["s2"]))
+        a, b = (pr["c1"], pr["s1"]), (pr["c2"], pr["s2"])
+        key = (min(a, b), max(a, b))
         listed.setdefault(key, []).append(pr)
-    slots = sorted(ps)
-    for i in range(len(slots)):
-        for j in range(i + 1, len(slots)):
-            a, b = ps[slots[i]], ps[slots[j]]
+    ids = sorted(ps)
+    for i in range(len(ids)):
+        for j in range(i + 1, len(ids)):
+            a, b = ps[ids[i]], ps[ids[j]]
             d = minimg([x - y for x, y in zip(a["r"], b["r"])], L, per)
             d2 = sum(x * x for x in d)
-            key = (slots[i], slots[j])
+            key = (ids[i], ids[j])
             if d2 < rc * rc:
                 if key not in listed:
                     errs.append("pair %s with separation^2 %s < cutoff^2 is missing from the list" % (key, d2))
@@ -167,7 +181,7 @@ def oracle_step(step, meta):
                     errs.append("pair %s is listed %d times" % (key, len(listed[key])))
     for key, prs in listed.items():
         for pr in prs:
-            a, b = ps[pr["s1"]], ps[pr["s2"]]
+            a, b = ps[(pr["c1"], pr["s1"])], ps[(pr["c2"], pr["s2"])]
             d = minimg([x - y for x, y in zip(a["r"], b["r"])], L, per)
             true2 = sum(x * x for x in d)
             if pr["abs2"] < rc * rc and (pr["d"] != d):
@@ -205,9 +219,9 @@ def model_requests(steps, meta):
                          "step %d rebuild decision" % st["step"]))
         if not rebuilt:
             # refreshed distances of all listed pairs
-            pmap = {p["slot"]: p for p in ps}
+            pmap = {(p["colour"], p["slot"]): p for p in ps}
             for pr in st["pairs"][:40]:
-                raw = [a - b for a, b in zip(pmap[pr["s1"]]["r"], pmap[pr["s2"]]["r"])]
+                raw = [a - b for a, b in zip(pmap[(pr["c1"], pr["s1"])]["r"], pmap[(pr["c2"], pr["s2"])]["r"])]
                 reqs.append(("wrapvec %s %s" % (" ".join(symlib.rat(x) for x in meta["L"]), " ".join(symlib.rat(x) for x in raw)),
                              "wrapvec " + ",".join(symlib.rat(x) for x in pr["d"]), "step %d refreshed pair %d-%d" % (st["step"], pr["s1"], pr["s2"])))
     if meta["every"] > 0:
